@@ -193,6 +193,68 @@ type frame struct {
 	retVal   ssa.Value // value in the caller to bind the result to (nil for deferred calls)
 	defers   []*deferRec
 	inDefer  bool
+	// tsub: the callee's type parameters as the caller's types (inlined instances of generic functions)
+	tsub map[*types.TypeParam]types.Type
+}
+
+// ty expresses a type of this frame's function in the terms of the analysed root function.
+func (f *frame) ty(t types.Type) types.Type {
+	if len(f.tsub) == 0 || t == nil {
+		return t
+	}
+	return substType(t, f.tsub, 0)
+}
+
+func substType(t types.Type, m map[*types.TypeParam]types.Type, depth int) types.Type {
+	if depth > 8 {
+		return t
+	}
+	switch x := t.(type) {
+	case *types.TypeParam:
+		if r, ok := m[x]; ok {
+			return r
+		}
+	case *types.Pointer:
+		if e := substType(x.Elem(), m, depth+1); e != x.Elem() {
+			return types.NewPointer(e)
+		}
+	case *types.Slice:
+		if e := substType(x.Elem(), m, depth+1); e != x.Elem() {
+			return types.NewSlice(e)
+		}
+	case *types.Array:
+		if e := substType(x.Elem(), m, depth+1); e != x.Elem() {
+			return types.NewArray(e, x.Len())
+		}
+	case *types.Chan:
+		if e := substType(x.Elem(), m, depth+1); e != x.Elem() {
+			return types.NewChan(x.Dir(), e)
+		}
+	case *types.Map:
+		k, e := substType(x.Key(), m, depth+1), substType(x.Elem(), m, depth+1)
+		if k != x.Key() || e != x.Elem() {
+			return types.NewMap(k, e)
+		}
+	case *types.Named:
+		ta := x.TypeArgs()
+		if ta == nil || ta.Len() == 0 {
+			return t
+		}
+		args := make([]types.Type, ta.Len())
+		changed := false
+		for i := range args {
+			args[i] = substType(ta.At(i), m, depth+1)
+			if args[i] != ta.At(i) {
+				changed = true
+			}
+		}
+		if changed {
+			if r, err := types.Instantiate(nil, x.Origin(), args, false); err == nil {
+				return r
+			}
+		}
+	}
+	return t
 }
 
 type memEntry struct {
@@ -903,7 +965,7 @@ func typeKey(t types.Type) string {
 //	rtype[*V].Elem()                                                                       ->  rtype[V]
 //
 // (the descriptor of a value depends on its dynamic type only, which for such a V is V itself).
-func rtypeOf(name string, c *ssa.CallCommon, args []*Term) *Term {
+func rtypeOf(name string, c *ssa.CallCommon, args []*Term, f *frame) *Term {
 	switch name {
 	case "reflect.TypeOf":
 		if len(c.Args) == 1 {
@@ -918,12 +980,12 @@ func rtypeOf(name string, c *ssa.CallCommon, args []*Term) *Term {
 				if types.IsInterface(vt) {
 					return nil
 				}
-				return RType(vt)
+				return RType(f.ty(vt))
 			}
 		}
 	case "reflect.TypeFor":
-		if f := c.StaticCallee(); f != nil && len(f.TypeArgs()) == 1 {
-			return RType(f.TypeArgs()[0])
+		if sf := c.StaticCallee(); sf != nil && len(sf.TypeArgs()) == 1 {
+			return RType(f.ty(sf.TypeArgs()[0]))
 		}
 	case "(reflect.Type).Elem":
 		if len(args) == 1 && args[0].Op == "rtype" {
@@ -1356,8 +1418,29 @@ func (ex *explorer) canInlineAt(st *State, fn *ssa.Function, site string) bool {
 	return true
 }
 
-func (ex *explorer) pushFrame(st *State, fn *ssa.Function, args []*Term, bindings []*Term, site string, retBlock *ssa.BasicBlock, retIdx int, retVal ssa.Value, inDefer bool, instr ssa.Instruction) {
+func (ex *explorer) pushFrame(st *State, fn *ssa.Function, args []*Term, bindings []*Term, site string, retBlock *ssa.BasicBlock, retIdx int, retVal ssa.Value, inDefer bool, instr ssa.Instruction, inst *ssa.Function) {
 	nf := &frame{fn: fn, env: map[ssa.Value]*Term{}, id: st.top().id + "/" + site, retBlock: retBlock, retIdx: retIdx, retVal: retVal, inDefer: inDefer}
+	if inst != nil && inst.Origin() != nil && len(inst.TypeArgs()) > 0 {
+		if tps := inst.Origin().TypeParams(); tps != nil && tps.Len() == len(inst.TypeArgs()) {
+			nf.tsub = map[*types.TypeParam]types.Type{}
+			for i := 0; i < tps.Len(); i++ {
+				nf.tsub[tps.At(i)] = st.top().ty(inst.TypeArgs()[i])
+			}
+		}
+	} else if fn.Parent() != nil {
+		// a function literal shares the type parameters of the function it is written in
+		for i := len(st.frames) - 1; i >= 0; i-- {
+			for p := fn.Parent(); p != nil; p = p.Parent() {
+				if st.frames[i].fn == p {
+					nf.tsub = st.frames[i].tsub
+					break
+				}
+			}
+			if nf.tsub != nil {
+				break
+			}
+		}
+	}
 	for i, p := range fn.Params {
 		if i < len(args) {
 			nf.env[p] = args[i]
@@ -1401,7 +1484,7 @@ func (ex *explorer) callDeferred(st *State, d *deferRec, blk *ssa.BasicBlock, id
 		bindings = d.callee.Args
 	}
 	if d.method == nil && ex.canInline(st, fn) {
-		ex.pushFrame(st, fn, d.args, bindings, site, blk, idx, nil, true, d.instr)
+		ex.pushFrame(st, fn, d.args, bindings, site, blk, idx, nil, true, d.instr, d.static)
 		return true
 	}
 	top := st.top()
@@ -1457,7 +1540,7 @@ func (ex *explorer) doCall(st *State, in ssa.Instruction, c *ssa.CallCommon, val
 		return false
 	}
 	if ex.opt.PureCall != nil && name != "" && ex.opt.PureCall(name) {
-		if t := rtypeOf(name, c, args); t != nil {
+		if t := rtypeOf(name, c, args, f); t != nil {
 			bind(t)
 			return false
 		}
@@ -1491,7 +1574,7 @@ func (ex *explorer) doCall(st *State, in ssa.Instruction, c *ssa.CallCommon, val
 		}
 	}
 	if fn != nil && ex.canInlineAt(st, fn, site) {
-		ex.pushFrame(st, fn, args, bindings, site, blk, idx+1, val, false, in)
+		ex.pushFrame(st, fn, args, bindings, site, blk, idx+1, val, false, in, c.StaticCallee())
 		return true
 	}
 	r := &Term{Op: "call", Aux: site + f.id, Args: append([]*Term{calleeT}, args...)}
@@ -1517,10 +1600,10 @@ func (ex *explorer) simple(st *State, in ssa.Instruction) {
 	f := st.top()
 	switch in := in.(type) {
 	case *ssa.Alloc:
-		a := &Term{Op: "alloc", Aux: ex.instrID(in) + f.id + ":" + in.Comment, Typ: in.Type(), Src: in, Owner: in.Parent()}
+		a := &Term{Op: "alloc", Aux: ex.instrID(in) + f.id + ":" + in.Comment, Typ: f.ty(in.Type()), Src: in, Owner: in.Parent()}
 		f.env[in] = a
 		st.fresh[a.Key()] = true
-		et := in.Type().Underlying().(*types.Pointer).Elem()
+		et := f.ty(in.Type().Underlying().(*types.Pointer).Elem())
 		st.store(a, &Term{Op: "const", Aux: "zero:" + shortType(et), Typ: et})
 	case *ssa.Store:
 		addr, val := ex.eval(st, in.Addr), ex.eval(st, in.Val)
@@ -1594,13 +1677,13 @@ func (ex *explorer) simple(st *State, in ssa.Instruction) {
 	case *ssa.ChangeInterface:
 		f.env[in] = ex.eval(st, in.X)
 	case *ssa.Convert:
-		f.env[in] = &Term{Op: "conv", Aux: shortType(in.Type()), Args: []*Term{ex.eval(st, in.X)}, Typ: in.Type()}
+		f.env[in] = &Term{Op: "conv", Aux: shortType(f.ty(in.Type())), Args: []*Term{ex.eval(st, in.X)}, Typ: f.ty(in.Type())}
 	case *ssa.MultiConvert:
-		f.env[in] = &Term{Op: "conv", Aux: shortType(in.Type()), Args: []*Term{ex.eval(st, in.X)}, Typ: in.Type()}
+		f.env[in] = &Term{Op: "conv", Aux: shortType(f.ty(in.Type())), Args: []*Term{ex.eval(st, in.X)}, Typ: f.ty(in.Type())}
 	case *ssa.SliceToArrayPointer:
 		f.env[in] = &Term{Op: "conv", Aux: shortType(in.Type()), Args: []*Term{ex.eval(st, in.X)}}
 	case *ssa.TypeAssert:
-		f.env[in] = &Term{Op: "tassert", Aux: shortType(in.AssertedType), Args: []*Term{ex.eval(st, in.X)}, Typ: in.AssertedType}
+		f.env[in] = &Term{Op: "tassert", Aux: shortType(f.ty(in.AssertedType)), Args: []*Term{ex.eval(st, in.X)}, Typ: f.ty(in.AssertedType)}
 		if in.CommaOk {
 			f.env[in].Aux += ",ok"
 		}
